@@ -141,9 +141,11 @@ def auditedSentinelTests : List (String × String) := [
 
 def audit : Audit := { benign := benignSentinels.map (·.name), tol := toleratedSites.map fun t => { fn := t.fn, callee := t.callee, allow := t.allow } }
 
+set_option maxRecDepth 4096 in
 /-- the regenerated program is closed: every callee index names a regenerated function -/
 theorem c10_flow_callees_resolved : GenC10.fns.all (fun F => calleesIn GenC10.fns.length F.sk) = true := by decide
 
+set_option maxRecDepth 4096 in
 /-- THE check: with the audited tolerances no regenerated function has a path on which a failed call's error is dropped -/
 theorem c10_flow_all_ok : GenC10.fns.all (fnOK GenC10.fns audit) = true := by decide
 
